@@ -181,19 +181,32 @@ def tombWindow : List (Int × Int) → Option (Int × Int)
         else go t (if t.1 < w.1 then t.1 else w.1, if t.2 > w.2 then t.2 else w.2) ts
     go r r rest
 
-/-- `indirectIndex.DeleteRange` on one key of one file -/
-def FileEnt.deleteRange (f : FileEnt) (min max : Int) : FileEnt :=
-  if f.gone then f else
+/-- what `indirectIndex.DeleteRange` does to one key of one file -/
+inductive TombAct where
+  | keep                                  -- nothing (key already removed, or range outside the key's times)
+  | drop                                  -- the key is removed from the file's index
+  | tomb (ts : List (Int × Int))          -- the tombstone list becomes `ts`
+deriving Repr, DecidableEq
+
+def FileEnt.tombAct (f : FileEnt) (min max : Int) : TombAct :=
+  if f.gone then .keep else
   match f.pts.head?, f.pts.getLast? with
   | some a, some b =>
-    if min > b.1 ∨ max < a.1 then f                    -- outside the key's time range
-    else if min ≤ a.1 ∧ max ≥ b.1 then { f with gone := true }   -- covers every value
+    if min > b.1 ∨ max < a.1 then .keep                       -- outside the key's time range
+    else if min ≤ a.1 ∧ max ≥ b.1 then .drop                  -- covers every value
     else
       let ts := insertTomb (min, max) f.tombs
       match tombWindow ts with
-      | some w => if w.1 ≤ a.1 ∧ w.2 ≥ b.1 then { f with gone := true } else { f with tombs := ts }
-      | none => { f with tombs := ts }
-  | _, _ => f
+      | some w => if w.1 ≤ a.1 ∧ w.2 ≥ b.1 then .drop else .tomb ts
+      | none => .tomb ts
+  | _, _ => .keep
+
+/-- `indirectIndex.DeleteRange` on one key of one file -/
+def FileEnt.deleteRange (f : FileEnt) (min max : Int) : FileEnt :=
+  match f.tombAct min max with
+  | .keep => f
+  | .drop => { f with gone := true }
+  | .tomb ts => { f with tombs := ts }
 
 /-- range delete on one series (`sel` = it is among the series handed to `DeleteSeriesRange`):
     tombstones in every file, values cut from the cache; the series leaves the index iff no
